@@ -23,7 +23,7 @@ CLAIMED = {
     "C14": ("§4 C14", "Negative property over every path = cut-set: every RTP/RTCP egress is cut by protect(Ok)-on-the-sent-buffer or the sender's srtp_required==false; every ingress delivery by unprotect(Ok) or srtp_required==false; who-may-call IceConn egress; srtp_required wiring at construction."),
     "C15": ("§4 C15", "Table and layout agreement: RTCP (packet type, FMT) pairs written per variant equal the RFC numbers and the parser dispatch is their inverse; RTP version, header bit masks and header-extension profile ids; parser and marshaller agree on the byte positions of every fixed-offset RTP/RTCP field (27 fields); SDES chunks end with the end-of-list octet; the NACK parser reads all 16 BLP bits; one-byte header-extension packing, RTX wrap/unwrap positions, sign extension of the 24-bit loss counter; element-fits guards of the walkers accept an element ending exactly at the buffer end; NACK code never walks or orders sequence numbers with non-wrapping u16 ranges / comparisons. Inverse laws over all packets are value-level and not decided."),
     "C16": ("§4 C16", "Table agreement, ordering and provenance: STUN method/class bit tables and attribute type codes of encoder and decoder agree with each other and with RFC 5389/5766/IANA; magic cookie / FINGERPRINT constants; padding on every append path; MESSAGE-INTEGRITY before FINGERPRINT, each computed over (current length - 20) + 24 / + 8; the cached TURN long-term key is recomputed after every change of username/realm/password; candidate and pair priority formulas have the RFC 8445/6544 shape and constants; attribute walkers accept a last attribute that ends exactly at the message end; hmac_sha1 keys the MAC with the whole key through the variable-length constructor. XOR algebra, HMAC/CRC values and candidate round trips are not decided."),
-    "C17": ("§4 C17", "Spawn census (every JoinHandle flows into track_task / LoopsGuard / the caller, or the detached task is in a reviewed table with a machine-checked termination witness), close-path completeness derived from the transport-typed fields of PeerConnectionInner, cleanup guard armed before the first await and alive at every later one, IceTransport::stop releases every socket/listener/TURN/registration holder on every path, connection tasks hold the PeerConnection only weakly while they wait in a loop, close and the run-loop cleanup guard wake parked senders and waiters re-test Closed, the DTLS handshake loop never ends without publishing a terminal state, PeerConnectionState::Closed is published only by the teardown (or as the mirror of a stopped ICE transport), and the monitoring task publishes a state when the transport loops end on their own. Bounded time, descriptor counts and racing terminating events are not decided."),
+    "C17": ("§4 C17", "Spawn census (every JoinHandle flows into track_task / LoopsGuard / the caller, or the detached task is in a reviewed table with a machine-checked termination witness), close-path completeness derived from the transport-typed fields of PeerConnectionInner, cleanup guard armed before the first await and alive at every later one, IceTransport::stop releases every socket/listener/TURN/registration holder on every path, connection tasks hold the PeerConnection only weakly while they wait in a loop, close and the run-loop cleanup guard wake parked senders and waiters re-test Closed, the DTLS handshake loop never ends without publishing a terminal state, PeerConnectionState::Closed is published only by the teardown (or as the mirror of a stopped ICE transport), the monitoring task publishes a state when the transport loops end on their own, and close() itself aborts the tracked tasks and gives every connection-owned detached loop of the table its stop signal. Bounded time, descriptor counts and racing terminating events are not decided."),
     "C18": ("§4 C18", "Who-may-write the latch state plus cut-set rules for stickiness and legitimacy (each destination write cut separately by unlatched / expected-SSRC / not-RTCP / latching-enabled) for all packet histories; a reset discards every undecided probation observation; the latch is set only when the destination provably equals the selected source (stale-snapshot dataflow), and it IS set on every path that accepts a packet with no probation pending or names a probation winner. Rule precedence among candidates is not decided."),
     "C19": ("§4 C19", "State discipline of RewriteBridge::rewrite_packet that stream continuity rests on (stable per-source output SSRC keyed by the source SSRC read before the rewrite, sequence counter advanced by exactly one per packet, timestamp offset changed only at discontinuities), single delivery in RtpTransport::receive, demux stages tried in the order RID, MID, SSRC, unique PT, provisional with fall-through, payload-type lists replaced on re-registration. Wraparound arithmetic is not decided."),
     "C20": ("§4 C20", "Ownership/lock discipline of the SPSC ring: every push under one producer lock and every pop under one consumer lock that is the same instance for all handle types sharing the ring (guard-liveness dataflow), atomic ordering table, occupancy decided on the free-running counters only, Send/Sync bounds, sender accounting, end-of-stream only after a closed flag read BEFORE the emptiness observation, waiter registered before the last closed check."),
